@@ -418,7 +418,7 @@ func main() {
 		suts = append(suts, newSUT(v))
 	}
 	none := newSUT("")
-	total := r.N(60000, 1200000)
+	total := r.N(60000, 3000000)
 	rng := r.Rand(1)
 	sampled := 0
 	for i := 0; i < total; i++ {
